@@ -19,6 +19,7 @@ type decorator struct {
 	// expected field values (reference model, independent of errors.Flatten)
 	val                  string
 	file, line, function string
+	emptyOK              bool // an empty part may be sent as an empty field or omitted
 }
 
 var srcLines = []int32{0, 1, 42, 2147483647, -1}
@@ -44,6 +45,13 @@ func decorators() []decorator {
 			file: file, line: strconv.Itoa(int(l)), function: fn,
 			apply: func(e error) error { return psqlerr.WithSource(e, file, l, fn) }})
 	}
+	// decorations with an empty part: whether an empty value counts as "set" is not asserted
+	// (tolerant expectations), but the message must stay well-formed
+	ds = append(ds,
+		decorator{name: "source(f.go,7,\"\")", kind: 'f', file: "f.go", line: "7", function: "", emptyOK: true,
+			apply: func(e error) error { return psqlerr.WithSource(e, "f.go", 7, "") }},
+		decorator{name: "source(\"\",7,fn)", kind: 'f', file: "", line: "7", function: "fn", emptyOK: true,
+			apply: func(e error) error { return psqlerr.WithSource(e, "", 7, "fn") }})
 	return ds
 }
 
@@ -87,11 +95,22 @@ func expectFields(ds []decorator, base string, shape []int) map[byte]string {
 			f['n'] = d.val
 		case 'f':
 			f['F'], f['L'], f['R'] = d.file, d.line, d.function
+			if d.emptyOK {
+				if d.file == "" {
+					f['F'] = optionalEmpty
+				}
+				if d.function == "" {
+					f['R'] = optionalEmpty
+				}
+			}
 		}
 	}
 	f['M'] = strings.Repeat("ctx: ", wraps) + base
 	return f
 }
+
+// optionalEmpty marks a field whose value is empty: present-and-empty or absent are both accepted.
+const optionalEmpty = "\x00optional-empty"
 
 func shapeNames(ds []decorator, shape []int) []string {
 	out := make([]string, len(shape))
@@ -121,6 +140,12 @@ func diffFields(want, got map[byte]string) string {
 	for _, k := range []byte("SCMHDFLRn") {
 		w, hw := want[k]
 		g, hg := got[k]
+		if w == optionalEmpty {
+			if hg && g != "" {
+				out = append(out, fmt.Sprintf("field %c: expected empty or absent, got %q", k, g))
+			}
+			continue
+		}
 		switch {
 		case hw && !hg:
 			out = append(out, fmt.Sprintf("field %c: expected %q, absent", k, w))
